@@ -2,6 +2,12 @@
 
 package selector
 
+import (
+	"math"
+
+	"github.com/ipld/go-ipld-prime/node/basicnode"
+)
+
 // VerifC09ParseSelect: every text over the grammar alphabet is parsed or
 // rejected, and resolving an accepted selector on any data shape returns a
 // value or an error: no panic, bounded work.
@@ -34,4 +40,34 @@ func VerifC09SelectWide() {
 		_, _ = Selector{s1, s2}.Select(d)
 	}
 	vReach("selected")
+}
+
+// VerifC09SliceLongString: slicing a string of 40 two-byte characters (longer
+// than any small-allocation slack) with bounds anywhere in the int53 range
+// returns a value or an error; no slice-bounds panic.
+func VerifC09SliceLongString() {
+	s := ""
+	for i := 0; i < 40; i++ {
+		s += "é"
+	}
+	d := basicnode.NewString(s)
+	R := int64(1)<<53 - 1
+	bound := func(tag string, sentinel int64) int64 {
+		if vBool(tag + "_absent") {
+			return sentinel
+		}
+		v := vI64(tag)
+		vAssume(v >= -R)
+		vAssume(v <= R)
+		return v
+	}
+	seg := segment{str: "[s:e]", slice: []int64{bound("start", math.MinInt), bound("end", math.MaxInt)}, optional: vBool("optional")}
+	vBudget(2000000)
+	got, err := Selector{seg}.Select(d)
+	vReach("selected")
+	if err == nil && got != nil {
+		str, serr := got.AsString()
+		vAssert(serr == nil, "slicing a string did not give a string")
+		vAssert(len(str)%2 == 0 && len(str) <= 80, "slicing a string of two-byte characters gave a result that is not made of its characters")
+	}
 }
